@@ -23,6 +23,9 @@ REFPAT = {
     'self-chain': ["#4=M12(%V,'q',#1);", "#5=M12(%V,'r',#1);"],
     'select-aggregate': ["#4=KS(%V,(#1,#3),(#2,DREAL(1.5)));"],
     'select-aggregate-fwd': ["#4=KS(%V,(#5),(COLOR(.RED.),#5));", "#5=TGT(%V5);"],
+    # a typed select value whose member is a defined aggregate of references
+    'typed-select-aggregate': ["#4=KT(%V,TGT_LIST((#1,#2)));"],
+    'typed-select-aggregate-fwd': ["#4=KT(%V,TGT_LIST((#5,#1)));", "#5=TGT(%V5);"],
     'none': [],
 }
 IDPAT = {
@@ -43,6 +46,8 @@ def schema():
     S, N, A = smodel.Simple, smodel.Named, smodel.Aggr
     fam = smodel.family_I('fi')
     fam.add(smodel.Entity('ks', [smodel.Attr('n', S('INTEGER')), smodel.Attr('sels', A('LIST', 0, None, N('selent'))), smodel.Attr('mix', A('SET', 0, None, N('selmix')))]))
+    fam.add(smodel.TypeDecl('tgt_list', A('LIST', 0, None, N('tgt'))), smodel.TypeDecl('sel_tl', ('select', ['tgt_list', 'dstr'])),
+            smodel.Entity('kt', [smodel.Attr('n', S('INTEGER')), smodel.Attr('pick', N('sel_tl'))]))
     return fam
 
 
@@ -179,7 +184,7 @@ def gen(tier):
         for pb in pats:
             if pa == pb:
                 continue
-            for rb in (['plain', 'select-aggregate'] if tier == 'quick' else rps):
+            for rb in (['plain', 'select-aggregate', 'typed-select-aggregate'] if tier == 'quick' else rps):
                 yield ['plain', rb], (pa, pb)
             if tier != 'quick' or pa in ('high-first', 'high-middle', 'reversed'):
                 yield ['none', 'plain', 'aggregate'], (pa, pb, pa)
